@@ -188,7 +188,7 @@ func (ex *Exec) ptrToSlice(p PtrV, n int) SliceV {
 			panic(ex.unsupported("unsafe slice of %d elements over a scalar", n))
 		}
 		ex.cellSeq++
-		arr := &Cell{T: types.NewArray(c.T, 1), id: ex.cellSeq, Kids: []*Cell{c}}
+		arr := &Cell{T: types.NewArray(c.T, 1), id: ex.cellSeq, age: ex.cellSeq, Kids: []*Cell{c}}
 		return SliceV{Arr: arr, Off: ex.intConst(0), Len: ex.intConst(int64(n)), Cap: ex.intConst(1)}
 	}
 	if _, ok := c.Parent.T.Underlying().(*types.Array); !ok {
@@ -400,9 +400,11 @@ func (ex *Exec) lookup(fr *frame, x *ssa.Lookup) Value {
 func (ex *Exec) rangeInit(v Value) Value {
 	switch x := v.(type) {
 	case StrV:
-		return &IterV{S: x, IsS: true}
+		ex.objSeq++
+		return &IterV{S: x, IsS: true, seq: ex.objSeq}
 	case *MapObj:
-		it := &IterV{M: x}
+		ex.objSeq++
+		it := &IterV{M: x, seq: ex.objSeq}
 		if x != nil {
 			for _, e := range x.Entries {
 				if e.Live {
@@ -422,6 +424,11 @@ func (ex *Exec) rangeInit(v Value) Value {
 
 func (ex *Exec) rangeNext(x *ssa.Next, it *IterV) Value {
 	c := ex.ctx
+	for _, lv := range ex.guards {
+		if it.seq <= lv.objStart {
+			panic(&mergeAbort{"iterator advanced inside merge region"})
+		}
+	}
 	if it.IsS {
 		if it.Pos >= len(it.S.B) {
 			return AggV{c.False, ex.intConst(0), c.BV(32, 0)}
